@@ -7,6 +7,8 @@ use crate::RefCnt;
 
 unsafe impl<T> RefCnt for Weak<T> {
     type Base = T;
+    // The same address as the `Arc`/`Rc` of that allocation, but another counter behind it.
+    const DEBT_TAG: usize = 1;
     fn as_ptr(me: &Self) -> *mut T {
         if Weak::ptr_eq(&Weak::new(), me) {
             ptr::null_mut()
@@ -32,6 +34,8 @@ unsafe impl<T> RefCnt for Weak<T> {
 
 unsafe impl<T> RefCnt for RcWeak<T> {
     type Base = T;
+    // The same address as the `Arc`/`Rc` of that allocation, but another counter behind it.
+    const DEBT_TAG: usize = 1;
     fn as_ptr(me: &Self) -> *mut T {
         if RcWeak::ptr_eq(&RcWeak::new(), me) {
             ptr::null_mut()
